@@ -11,8 +11,13 @@ package vm
 //   Cyclic      value with a reference cycle (independent DFS over the description; back-edge at a
 //               generated element index and depth, through arrays/structs/maps, self references
 //               included)  =>  Serialize and BuildParamToNative return an error: never a result,
-//               never a crash;
-//   Beyond      values nested deeper than the limit (13..40): no accept/reject requirement, only
+//               never a crash; a cycle that the detector can see only by its random choice of a
+//               map entry (small maps: every entry with probability >= 1/8) is rejected within
+//               a bounded number of serializer rounds, not at the 1 MiB output limit;
+//   MapCycle    (c14_mapcycle_test.go) the same oracle on a dedicated family: maps of 2-6
+//               entries with the self/ancestor reference under the smallest, a middle or the
+//               largest key, at top level and nested in arrays/structs/maps;
+//   Beyond     values nested deeper than the limit (13..40): no accept/reject requirement, only
 //               no crash / no panic;
 //   Bytes       any byte string => Deserialize returns a value or an error; no panic, no crash.
 
@@ -31,7 +36,7 @@ import (
 	"verifharness/internal/iso"
 )
 
-const c14Rule = "recursive generator of value graphs (bytes incl. empty/long, integers at int64 and 32-byte edges, bools, arrays, structs, maps with distinct primitive keys) with DAG sharing of completed containers and, for the cyclic class, one back-edge to an ancestor or to the container itself inserted at a generated element index (maps: generated key, i.e. position in key order) of a container at a generated depth; byte strings = reference encodings of generated values, mutated (flip/insert/delete/truncate/length tamper), random type-biased bytes and nesting bombs; non-trivial = value depth >= 3 with a shared or cyclic reference that is not in first position (bytes: input that reaches a nested container); distinct = different canonical value / byte string"
+const c14Rule = "recursive generator of value graphs (bytes incl. empty/long, integers at int64 and 32-byte edges, bools, arrays, structs, maps with distinct primitive keys) with DAG sharing of completed containers and, for the cyclic class, one back-edge to an ancestor or to the container itself inserted at a generated element index (maps: generated key, i.e. position in key order) of a container at a generated depth; byte strings = reference encodings of generated values, mutated (flip/insert/delete/truncate/length tamper), random type-biased bytes and nesting bombs; a cycle that a single run of the one-path detector may miss but that every round of the serializer sees with probability >= 1/64 (random choice among the entries of maps of <= 8 entries) must be rejected within 70/p+2 rounds, not only at the 1 MiB output limit (class rejected-by-chance; the remaining may-diverge values belong to the recorded finding); non-trivial = value depth >= 3 with a shared or cyclic reference that is not in first position (bytes: input that reaches a nested container); distinct = different canonical value / byte string"
 
 // ---- independent reference encoder (only used to produce inputs for Deserialize) ---------------
 
@@ -277,7 +282,16 @@ func TestC14_Cyclic(t *testing.T) {
 		skipped := false
 		for _, op := range []string{"ser", "nat"} {
 			name := map[string]string{"ser": "Serialize", "nat": "BuildParamToNative"}[op]
-			if known && (op == "ser" && s.serMayDiverge() || op == "nat" && s.natMayDiverge()) {
+			// a cycle that a single detector run can miss, but that sits where the detector's random map-entry
+			// choice (small maps: every entry with probability >= 1/8) sees it with probability >= 1/64 in
+			// every round of the serializer: rejected almost surely within a bounded number of rounds
+			byChance, low := false, 0.0
+			if op == "ser" {
+				if l, ok := s.serLoopRejectLow(); ok && l >= rejectLowMin {
+					byChance, low = true, l
+				}
+			}
+			if known && !byChance && (op == "ser" && s.serMayDiverge() || op == "nat" && s.natMayDiverge()) {
 				// recorded finding: the detector follows one path only, this cycle can escape it
 				skipped = true
 				ev.Class("excluded:" + op)
@@ -289,6 +303,12 @@ func TestC14_Cyclic(t *testing.T) {
 			}
 			if rs.OK {
 				t.Fatalf("%s of a value containing a reference cycle returned a result (%s) instead of an error; value %s", name, harn.Hex(rs.Out), desc)
+			}
+			if byChance {
+				ev.Class("cyc:ser:rejected-by-chance")
+				if checkRounds(t, s, low, rs, desc) {
+					ev.Class("cyc:ser:rounds-bounded")
+				}
 			}
 			ev.Class("cyc:" + op + ":rejected")
 			if strings.Contains(rs.Err, "circular") {
@@ -321,6 +341,24 @@ func TestC14_Cyclic(t *testing.T) {
 		}
 		ev.Case(!skipped && be.index > 0 && be.fromDepth >= 2, desc)
 	})
+}
+
+// checkRounds: oracle for a cyclic value that Serialize rejects only by the detector's random choice
+// of map entries (rejection probability >= low in every round through the cycle). More than
+// roundsBound(low) rounds have probability < 1e-30, and a round writes at most cutSize bytes, so the
+// encoder must have given up before writing (roundsBound+2)*cutSize bytes. Returns false when that
+// bound is not below the 1 MiB output limit (which then stops the recursion anyway: nothing to check).
+func checkRounds(t *rapid.T, s *spec, low float64, rs wres, desc string) bool {
+	per := s.cutSize(1 << 20)
+	r := roundsBound(low)
+	bound := (r + 2) * per
+	if bound >= 1<<20 {
+		return false
+	}
+	if rs.ErrSize > bound {
+		t.Fatalf("Serialize of a value containing a reference cycle gave up (%q) only after writing %d bytes, i.e. after going round the cycle at least %d times (one round writes at most %d bytes); if the detector could descend into every entry of the map(s) holding the cycle, each round would be rejected with probability >= %.4f and more than %d rounds would have probability < 1e-30: the cycle is not detected, only the output limit (or a stack overflow) stops the recursion; value %s", rs.Err, rs.ErrSize, rs.ErrSize/per-2, per, low, r, desc)
+	}
+	return true
 }
 
 // ---- Beyond the limits ------------------------------------------------------------------------
